@@ -477,6 +477,9 @@ func (c *Ctx) globalTerm(pkgPath, name string, t types.Type) Term {
 	if c.sortOf(t) == "Iface" && types.Identical(t, types.Universe.Lookup("error").Type()) {
 		c.emit(fmt.Sprintf("(assert (and (not (= %s nilI)) (isGlobalErr %s) (= (gerrId %s) %d)))", n, n, n, len(c.globals)+1))
 		c.assumed["package-level error variables are non-nil, pairwise distinct and never reassigned"] = true
+		if c.P.plainErr[key] {
+			c.emit(fmt.Sprintf("(assert (forall ((t Iface)) (! (= (errIs %s t) (= %s t)) :pattern ((errIs %s t)))))", n, n, n))
+		}
 	}
 	c.globals[key] = n
 	return n
@@ -792,6 +795,9 @@ func (e *Env) call(x *ECall) TV {
 		d := c.comp(e.st, md, "(Array Ref (Array "+ks+" Bool))")
 		v := c.comp(e.st, mv, "(Array Ref (Array "+ks+" "+vs+"))")
 		return TV{T: "(ite (and (not (= " + m.T + " null)) " + sel(d, m.T, k.T) + ") " + sel(v, m.T, k.T) + " " + c.zero(mt.Elem()) + ")", Ty: mt.Elem()}
+	case "strOfBytes": // the string whose bytes the slice holds
+		c.needStrOfBytes()
+		return TV{T: "(strOfBytes " + arg(0).T + ")", Ty: types.Typ[types.String]}
 	case "strat": // strat(s, i): the byte at index i
 		c.needStrSub()
 		return TV{T: "(strat " + arg(0).T + " " + arg(1).T + ")", Ty: types.Typ[types.Int]}
